@@ -1,7 +1,7 @@
 (* C18 - what the generated case files evaluate: model-vs-implementation differences and the
    property's monitors on the implementation's own answers. *)
 From Coq Require Import QArith Qround.
-From ZenoV Require Import Lib.Harness Disk.Threshold Disk.ThresholdProofs.
+From ZenoV Require Import Lib.Harness Disk.Threshold Disk.ThresholdProofs Disk.FloatExact.
 Open Scope Z_scope.
 
 (* one case: a volume, an operator setting, and the implementation's answers
@@ -9,12 +9,27 @@ Open Scope Z_scope.
 Record dcase := DC { d_total : Z; d_ms : fl; d_obs : list (Z * bool) }.
 
 (* correspondence: the model's answer where it has one *)
-Definition diff_case (c : dcase) : bool :=
+Definition diff_case_model (c : dcase) : bool :=
   existsb (fun '(free, r) =>
     match refuse (d_total c) free (d_ms c) with
     | Some r' => negb (Bool.eqb r r')
     | None => false
     end) (d_obs c).
+
+(* correspondence, second stream: checkThreshold's float computation itself, evaluated in Flocq's
+   binary64 (Disk/FloatExact.v) on the case's float - the binary64 rebuilt from the printed (sign, m, e),
+   which must map back to the same value - against the implementation's answers.  [float_differs]
+   is [refuse_float] with the threshold computed once per case. *)
+Definition float_differs (total : Z) (ms : fl) (obs : list (Z * bool)) : bool :=
+  let f := b64_of_fl ms in
+  negb (fl_same (fl_of_b64 f) ms)
+  || match uint64_of_b64 (threshold_float total f) with
+     | Some t => existsb (fun '(free, r) => negb (Bool.eqb r (free <? t))) obs
+     | None => false
+     end.
+Definition diff_case_float (c : dcase) : bool := float_differs (d_total c) (d_ms c) (d_obs c).
+
+Definition diff_case (c : dcase) : bool := diff_case_model c || diff_case_float c.
 
 (* monitor 0: the specification itself, over Q:  refused <-> free < floor(tau) *)
 Definition mon_exact (c : dcase) : bool :=
@@ -73,7 +88,12 @@ Definition sdiff_case (c : scase) : bool :=
   | SStarted, Some r => r
   | SRefused, Some r => negb r
   | _, _ => false
-  end.
+  end
+  || match s_out c with     (* and of the binary64 computation (Disk/FloatExact.v) *)
+     | SStarted => float_differs (s_total c) (s_ms c) [(s_free c, false)]
+     | SRefused => float_differs (s_total c) (s_ms c) [(s_free c, true)]
+     | SNotRun => false
+     end.
 
 (* monitor 0: the specification itself over Q, on the job volume:
    refused to start <-> free < floor(tau total min_space) *)
